@@ -19,22 +19,39 @@
 //   rem <o> <t> <e>       (tss)  -> "1"|"0"       ...remove(e)
 //   set <o> <t> <k> <v>   (tsd)  -> "ok"          as_dict().begin_mutation(t).set(k, v)
 //   del <o> <t> <k>       (tsd)  -> "1"|"0"       ...erase(k)
-//   dump <t>                     -> "o0: <view> | o1: <view> | i0>1: <view> | i1>-: <flags>"
+//   touch  <o> <t>        (tsd, tsdn) -> "ok"     as_dict().begin_mutation(t).touch()              (no membership change)
+//   empty  <o> <t>        (tsd, tsdn) -> "ok"     apply_delta(out[o].view(t), <empty delta>)        (no membership change)
+//   setall <o> <t> <m>    (tsd)  -> "1"|"0"       as_dict().begin_mutation(t).copy_value_from(map)  m = "-" (empty) | k:v,k:v
+//   bindK  <i> <o> <t>    (tsd, tsdn) -> "ok"     KEY-SET input i (a TSS<Int> input, unbound): bind_output(out[o].as_dict().key_set())
+//   nested dictionaries (schema tsdn = TSD<Int,TSD<Int,TS<Int>>>; outputs and key-set inputs only):
+//   nset   <o> <t> <k1> <k2> <v> -> "ok"          outer.at(k1), then inner.begin_mutation(t).set(k2, v)
+//   ntouch <o> <t> <k1>          -> "ok"          outer.at(k1), then inner.begin_mutation(t).touch()
+//   nempty <o> <t> <k1>          -> "ok"          outer.at(k1), then apply_delta(inner view, <empty delta>)
+//   ndel   <o> <t> <k1> <k2>     -> "1"|"0"|"-"   inner.begin_mutation(t).erase(k2)   ("-": k1 is not a key, nothing is done)
+//   del    <o> <t> <k1>          -> "1"|"0"       outer erase
+//   dump <t>                     -> "o0: <view> | o1: <view> | i0>1: <view> | i1>-: <flags> [| k0>1: <kview> | k1>-: <flags>]"
 //        <flags> = <valid><modified>/<lmt>
 //        <view>  ts : <flags>/<value or ->
 //                tss: <flags>/[values]/+[added]/-[removed]                         (sorted)
 //                tsd: <flags>/[k=<flags>/<value or ->,...]/~[modified keys]/+[added keys]/-[removed keys]
+//                     a PRODUCER view continues with the key-set endpoint (TSDOutputView::key_set(), its own tracking
+//                     record):  /K<flags>/+[added]/-[removed]
+//                tsdn (producer): <flags>/[k1=<flags>/K<flags>/[k2=<flags>/<value>,...],...]/~[..]/+[..]/-[..]/K<flags>/+[..]/-[..]
+//        <kview> = <flags>/[keys]/+[added]/-[removed]   a key-set input (TSS view)
 //        i<n>><o> names the output the input is bound to ("-" = unbound: only the flags are read)
 // Every <t> is a cycle time > 0 (MIN_DT is refused: "bad-op").
 // Errors: "err:invalid-arg" | "err:logic" | "err:range" | "err:other".  Unknown / malformed: "bad-op".
 #include "hgv_common.h"
 
 #include <hgraph/types/metadata/type_registry.h>
+#include <hgraph/types/metadata/value_plan_factory.h>
 #include <hgraph/types/primitive_types.h>
 #include <hgraph/types/static_schema.h>
+#include <hgraph/types/time_series/ts_delta.h>
 #include <hgraph/types/time_series/ts_input.h>
 #include <hgraph/types/time_series/ts_output.h>
 #include <hgraph/types/value/value.h>
+#include <hgraph/types/value/value_builder.h>
 
 #include <algorithm>
 #include <memory>
@@ -46,7 +63,7 @@ using namespace hgv;
 namespace
 {
     struct BadOp {};
-    enum class Kind { TS, TSS, TSD };
+    enum class Kind { TS, TSS, TSD, TSDN };
 
     std::int64_t nat(const std::string &s)
     {
@@ -99,22 +116,62 @@ namespace
     }
 
     template <typename View>
-    std::string dump_view(const View &view, Kind kind)
+    std::string set_view(const View &view)
     {
-        if (kind == Kind::TS) { return leaf(view); }
-        if (kind == Kind::TSS)
+        auto set = view.as_set();
+        return flags(view) + "/" + keys_of(set.values()) + "/+" + keys_of(set.added()) + "/-" + keys_of(set.removed());
+    }
+
+    // the key-set endpoint of a dictionary output: own flags, own delta views (its members are the dict's keys)
+    std::string key_set_of(const TSOutputView &view)
+    {
+        auto keys = view.as_dict().key_set();
+        auto set  = keys.as_set();
+        return "/K" + flags(keys) + "/+" + keys_of(set.added()) + "/-" + keys_of(set.removed());
+    }
+
+    template <typename View>
+    std::string dict_body(const View &view, bool nested);
+
+    inline std::string kid(const TSOutputView &child, bool nested)
+    {
+        if (!nested) { return leaf(child); }
+        // an inner dictionary: flags, its key-set flags, its items
+        auto keys = child.as_dict().key_set();
+        std::vector<std::pair<Int, std::string>> items;
+        for (const auto [key, grandchild] : child.as_dict().items())
         {
-            auto set = view.as_set();
-            return flags(view) + "/" + keys_of(set.values()) + "/+" + keys_of(set.added()) + "/-" + keys_of(set.removed());
+            items.emplace_back(as_int(key), std::to_string(as_int(key)) + "=" + leaf(grandchild));
         }
+        return flags(child) + "/K" + flags(keys) + "/" + join(std::move(items));
+    }
+    inline std::string kid(const TSInputView &child, bool) { return leaf(child); }
+
+    template <typename View>
+    std::string dict_body(const View &view, bool nested)
+    {
         auto dict = view.as_dict();
         std::vector<std::pair<Int, std::string>> items;
         for (const auto [key, child] : dict.items())
         {
-            items.emplace_back(as_int(key), std::to_string(as_int(key)) + "=" + leaf(child));
+            items.emplace_back(as_int(key), std::to_string(as_int(key)) + "=" + kid(child, nested));
         }
         return flags(view) + "/" + join(std::move(items)) + "/~" + keys_of(dict.modified_keys()) + "/+" +
                keys_of(dict.added_keys()) + "/-" + keys_of(dict.removed_keys());
+    }
+
+    std::string dump_view(const TSOutputView &view, Kind kind)
+    {
+        if (kind == Kind::TS) { return leaf(view); }
+        if (kind == Kind::TSS) { return set_view(view); }
+        return dict_body(view, kind == Kind::TSDN) + key_set_of(view);
+    }
+
+    std::string dump_view(const TSInputView &view, Kind kind)
+    {
+        if (kind == Kind::TS) { return leaf(view); }
+        if (kind == Kind::TSS) { return set_view(view); }
+        return dict_body(view, false);
     }
 
     struct World
@@ -124,9 +181,12 @@ namespace
         std::vector<std::unique_ptr<TSOutput>> outputs;
         std::vector<std::unique_ptr<TSInput>>  inputs;
         std::vector<int>                       target;   // -1 = unbound
+        std::vector<std::unique_ptr<TSInput>>  kinputs;  // TSS<Int> inputs for the key sets (tsd / tsdn)
+        std::vector<int>                       ktarget;
 
         ~World()
         {
+            kinputs.clear();
             inputs.clear();
             outputs.clear();
         }
@@ -141,6 +201,8 @@ int main()
     const auto *ts_int   = registry.ts(int_meta);
     const auto *tss_int  = registry.tss(int_meta);
     const auto *tsd_int  = registry.tsd(int_meta, ts_int);
+    const auto *tsd_tsd  = registry.tsd(int_meta, tsd_int);
+    const auto  int_binding = ValuePlanFactory::instance().type_for(int_meta);
 
     std::unique_ptr<World> world;
     std::string            line;
@@ -170,6 +232,7 @@ int main()
                 if (w[1] == "ts") { next->kind = Kind::TS; next->meta = ts_int; }
                 else if (w[1] == "tss") { next->kind = Kind::TSS; next->meta = tss_int; }
                 else if (w[1] == "tsd") { next->kind = Kind::TSD; next->meta = tsd_int; }
+                else if (w[1] == "tsdn") { next->kind = Kind::TSDN; next->meta = tsd_tsd; }
                 else { throw BadOp{}; }
                 for (int o = 0; o < 2; ++o) { next->outputs.push_back(std::make_unique<TSOutput>(*next->meta)); }
                 for (std::int64_t i = 0; i < k; ++i)
@@ -177,11 +240,18 @@ int main()
                     next->inputs.push_back(std::make_unique<TSInput>(
                         TSInputBuilderFactory::checked_builder_for(*next->meta, TSEndpointSchema::peered(next->meta))));
                     next->target.push_back(-1);
+                    if (next->kind == Kind::TSD || next->kind == Kind::TSDN)
+                    {
+                        next->kinputs.push_back(std::make_unique<TSInput>(
+                            TSInputBuilderFactory::checked_builder_for(*tss_int, TSEndpointSchema::peered(tss_int))));
+                        next->ktarget.push_back(-1);
+                    }
                 }
                 world = std::move(next);
                 std::cout << "ok\n";
             }
-            else if ((op == "bind" || op == "bindS" || op == "rebind" || op == "rebindS") && w.size() == 4 && world)
+            else if ((op == "bind" || op == "bindS" || op == "rebind" || op == "rebindS") && w.size() == 4 && world &&
+                     world->kind != Kind::TSDN)
             {
                 const auto i = in_index(w[1]);
                 const auto o = out_index(w[2]);
@@ -194,7 +264,18 @@ int main()
                 world->target[i] = static_cast<int>(o);
                 std::cout << "ok\n";
             }
-            else if (op == "unbind" && w.size() == 3 && world)
+            else if (op == "bindK" && w.size() == 4 && world && !world->kinputs.empty())
+            {
+                const auto i = in_index(w[1]);
+                const auto o = out_index(w[2]);
+                const auto t = cycle(w[3]);
+                if (world->ktarget[i] >= 0) { throw BadOp{}; }
+                auto out_view = world->outputs[o]->view(t);
+                world->kinputs[i]->view(nullptr, t).bind_output(out_view.as_dict().key_set());
+                world->ktarget[i] = static_cast<int>(o);
+                std::cout << "ok\n";
+            }
+            else if (op == "unbind" && w.size() == 3 && world && world->kind != Kind::TSDN)
             {
                 const auto i = in_index(w[1]);
                 const auto t = cycle(w[2]);
@@ -235,7 +316,7 @@ int main()
                 mutation.set(key.view(), value.view());
                 std::cout << "ok\n";
             }
-            else if (op == "del" && w.size() == 4 && world && world->kind == Kind::TSD)
+            else if (op == "del" && w.size() == 4 && world && (world->kind == Kind::TSD || world->kind == Kind::TSDN))
             {
                 const auto o = out_index(w[1]);
                 const auto t = cycle(w[2]);
@@ -244,6 +325,102 @@ int main()
                 auto       dict     = view.as_dict();
                 auto       mutation = dict.begin_mutation(t);
                 std::cout << (mutation.erase(key.view()) ? "1" : "0") << "\n";
+            }
+            else if (op == "touch" && w.size() == 3 && world && (world->kind == Kind::TSD || world->kind == Kind::TSDN))
+            {
+                const auto o = out_index(w[1]);
+                const auto t = cycle(w[2]);
+                auto       view     = world->outputs[o]->view(t);
+                auto       dict     = view.as_dict();
+                auto       mutation = dict.begin_mutation(t);
+                mutation.touch();
+                std::cout << "ok\n";
+            }
+            else if (op == "empty" && w.size() == 3 && world && (world->kind == Kind::TSD || world->kind == Kind::TSDN))
+            {
+                const auto  o     = out_index(w[1]);
+                const auto  t     = cycle(w[2]);
+                auto        data  = world->outputs[o]->data_view();
+                const auto  type  = data.storage_type();
+                const Value empty = type.ops()->empty_delta_impl(type);
+                apply_delta(world->outputs[o]->view(t), empty.view());
+                std::cout << "ok\n";
+            }
+            else if (op == "setall" && w.size() == 4 && world && world->kind == Kind::TSD)
+            {
+                const auto o = out_index(w[1]);
+                const auto t = cycle(w[2]);
+                MapBuilder builder{int_binding, int_binding};
+                if (w[3] != "-")
+                {
+                    std::size_t start = 0;
+                    for (;;)
+                    {
+                        const auto comma = w[3].find(',', start);
+                        const auto item  = w[3].substr(start, comma == std::string::npos ? std::string::npos : comma - start);
+                        const auto colon = item.find(':');
+                        if (colon == std::string::npos) { throw BadOp{}; }
+                        const Int key   = integer(item.substr(0, colon));
+                        const Int value = integer(item.substr(colon + 1));
+                        if (builder.contains(&key)) { throw BadOp{}; }
+                        builder.set_item(key, value);
+                        if (comma == std::string::npos) { break; }
+                        start = comma + 1;
+                    }
+                }
+                Value map      = builder.build();
+                auto  view     = world->outputs[o]->view(t);
+                auto  dict     = view.as_dict();
+                auto  mutation = dict.begin_mutation(t);
+                std::cout << (mutation.copy_value_from(map.view()) ? "1" : "0") << "\n";
+            }
+            else if ((op == "ntouch" || op == "nempty") && w.size() == 4 && world && world->kind == Kind::TSDN)
+            {
+                const auto o = out_index(w[1]);
+                const auto t = cycle(w[2]);
+                Value      k1{Int{integer(w[3])}};
+                auto       view     = world->outputs[o]->view(t);
+                auto       dict     = view.as_dict();
+                auto       mutation = dict.begin_mutation(t);
+                auto       inner    = mutation.at(k1.view());
+                if (op == "ntouch") { inner.as_dict().begin_mutation(t).touch(); }
+                else
+                {
+                    const auto  type  = inner.storage_type();
+                    const Value empty = type.ops()->empty_delta_impl(type);
+                    apply_delta(dict.at(k1.view()), empty.view());
+                }
+                std::cout << "ok\n";
+            }
+            else if (op == "nset" && w.size() == 6 && world && world->kind == Kind::TSDN)
+            {
+                const auto o = out_index(w[1]);
+                const auto t = cycle(w[2]);
+                Value      k1{Int{integer(w[3])}};
+                Value      k2{Int{integer(w[4])}};
+                Value      v{Int{integer(w[5])}};
+                auto       view     = world->outputs[o]->view(t);
+                auto       dict     = view.as_dict();
+                auto       mutation = dict.begin_mutation(t);
+                auto       inner    = mutation.at(k1.view());
+                inner.as_dict().begin_mutation(t).set(k2.view(), v.view());
+                std::cout << "ok\n";
+            }
+            else if (op == "ndel" && w.size() == 5 && world && world->kind == Kind::TSDN)
+            {
+                const auto o = out_index(w[1]);
+                const auto t = cycle(w[2]);
+                Value      k1{Int{integer(w[3])}};
+                Value      k2{Int{integer(w[4])}};
+                auto       view = world->outputs[o]->view(t);
+                auto       dict = view.as_dict();
+                if (!dict.contains(k1.view())) { std::cout << "-\n"; }
+                else
+                {
+                    auto mutation = dict.begin_mutation(t);
+                    auto inner    = mutation.at(k1.view());
+                    std::cout << (inner.as_dict().begin_mutation(t).erase(k2.view()) ? "1" : "0") << "\n";
+                }
             }
             else if (op == "dump" && w.size() == 2 && world)
             {
@@ -259,6 +436,13 @@ int main()
                     out += " | i" + std::to_string(i) + ">";
                     if (world->target[i] < 0) { out += "-: " + flags(view); }
                     else { out += std::to_string(world->target[i]) + ": " + dump_view(view, world->kind); }
+                }
+                for (std::size_t i = 0; i < world->kinputs.size(); ++i)
+                {
+                    auto view = world->kinputs[i]->view(nullptr, t);
+                    out += " | k" + std::to_string(i) + ">";
+                    if (world->ktarget[i] < 0) { out += "-: " + flags(view); }
+                    else { out += std::to_string(world->ktarget[i]) + ": " + set_view(view); }
                 }
                 std::cout << out << "\n";
             }
